@@ -1,6 +1,7 @@
 #![allow(unused_imports, dead_code, unused_variables, unused_mut, unused_assignments, unreachable_code)]
 use vstd::prelude::*;
 use std::time::{Instant, SystemTime};
+use vstd::std_specs::iter::IteratorSpec;
 
 verus! {
 
